@@ -1058,3 +1058,404 @@ def generate(pid, repo, specs):
         files['Src_%s.lean' % gen] = text
         infos.extend(inf)
     return files, infos
+
+
+# ------------------------------------------------------------------------------------------------ self-test
+# CPython (the real boltons classes on real io.BytesIO / tempfile.TemporaryFile objects) vs the generated
+# definitions: for every translated method, states x arguments; compared are the value or the exception class AND
+# the whole object state after the call (content, position, closed, kind of every file object), also after a raising
+# call.  A Lean result `PyExc.Other` means "not specified by the abstract file" (module docstring of PyRtC18): such
+# cases are counted (`unspecified`), not compared.
+
+SELFTEST_CODEC = r'''
+abbrev P := StateT (List Int) Option
+def pInt : P Int := fun l => match l with | x :: t => some (x, t) | [] => none
+def pBool : P Bool := do let x ← pInt; pure (x != 0)
+def pNat : P Nat := do let x ← pInt; pure x.toNat
+def pMany {α : Type} (p : P α) : Nat → P (List α)
+  | 0 => pure []
+  | n + 1 => do let x ← p; let xs ← pMany p n; pure (x :: xs)
+def pList {α : Type} (p : P α) : P (List α) := do let n ← pNat; pMany p n
+def pBytes : P (List UInt8) := pList (do let x ← pInt; pure (UInt8.ofNat x.toNat))
+def pOptInt : P (Option Int) := do let t ← pInt; if t == 0 then pure none else (do let x ← pInt; pure (some x))
+def pOptUnit : P (Option Unit) := do let t ← pInt; pure (if t == 0 then none else some ())
+def pFile : P (PyRtC18.FileObj UInt8) := do
+  let d ← pBytes; let p ← pNat; let c ← pBool; let r ← pBool; let st ← pBool
+  pure ⟨⟨d, p⟩, c, r, st⟩
+def eBytes (b : List UInt8) : List Int := (b.length : Int) :: b.map (fun x => (x.toNat : Int))
+def eBool (b : Bool) : List Int := [if b then 1 else 0]
+def eFile (o : PyRtC18.FileObj UInt8) : List Int :=
+  if o.closed then [0, 0, 1] ++ eBool o.real else eBytes o.f.data ++ [(o.f.pos : Int), 0] ++ eBool o.real
+def eFiles (l : List (PyRtC18.FileObj UInt8)) : List Int := (l.length : Int) :: (l.map eFile).flatten
+def eOptInt : Option Int → List Int | none => [0] | some x => [1, x]
+def excCode : PyExc → Int
+  | .KeyError => 0 | .ValueError => 1 | .TypeError => 2 | .IndexError => 3 | .ZeroDivisionError => 4
+  | .StopIteration => 5 | .RecursionError => 6 | .Other => 7 | .OutOfFuel => 8
+def eExcept {α : Type} (e : α → List Int) : Except PyExc α → List Int
+  | .ok v => 1 :: e v
+  | .error x => [0, excCode x]
+def showInts (l : List Int) : String := " ".intercalate (l.map toString)
+def parseInts (s : String) : Option (List Int) :=
+  (s.trim.splitOn " ").filter (· ≠ "") |>.mapM String.toInt?
+'''
+
+_P = {INT: 'pInt', BOOL: 'pBool', SEQ: 'pBytes', ('Option', INT): 'pOptInt', FILE: 'pFile', FILES: 'pList pFile',
+      OPAQUE: '(pure ())', ('Option', OPAQUE): 'pOptUnit'}
+_E = {INT: '(fun x => [x])', BOOL: 'eBool', SEQ: 'eBytes', ('Option', INT): 'eOptInt', FILE: 'eFile', FILES: 'eFiles',
+      OPAQUE: '(fun _ => [])', UNIT: '(fun _ => [])', FD: '(fun _ => [])'}
+SELFTEST_FUEL = 60
+
+
+def _st_specs(pids):
+    import srctie_specs
+    out = []
+    for pid in pids:
+        for sp in srctie_specs.SPECS.get(pid, []):
+            if sp.get('translator') == 'py2lean_c18':
+                out.append(sp)
+    return out
+
+
+def build_driver(specs, repo):
+    by = {}
+    for sp in specs:
+        by.setdefault((sp['module'], sp['gen_file']), []).append(sp)
+    body = ['import BoltonsVerif.PyRtC18', 'set_option linter.all false', '']
+    lfuel = {}
+    for (module_name, gen), sps in sorted(by.items()):
+        src, rel = read_module_source(module_name, repo)
+        text, infos = translate_source(src, sps, module_name, rel)
+        for i in infos:
+            if i.get('error'):
+                raise RuntimeError('not translated: %s: %s' % (i['function'], i['error']))
+        body.append(text.replace('import BoltonsVerif.PyRtC18\n', ''))
+        for sp in sps:
+            lfuel[id(sp)] = ('(lfuel : Nat)' in text.split('def %s.%s ' % (sp['cls']['lean_name'], sp['name']))[1]
+                             .split(':=')[0])
+    body.append(SELFTEST_CODEC)
+    arms = []
+    for n, sp in enumerate(specs):
+        cls = sp['cls']
+        state = [(lean_field(a), parse_type(t)) for a, t in cls['state'].items()]
+        params = [(mangle(p), parse_type(t)) for p, t in sp['params'].items()]
+        binds = ['let f_%s ← %s' % (f, _P[t]) for f, t in state] + ['let a_%s ← %s' % (p, _P[t]) for p, t in params]
+        full = 'Src.%s.%s.%s' % (sp['gen_file'], cls['lean_name'], sp['name'])
+        targ = '' if cls.get('unit') else ' (β := UInt8)'
+        call = '%s%s %s{ %s } %s' % (full, targ, ('%d ' % SELFTEST_FUEL) if lfuel[id(sp)] else '',
+                                    ', '.join('%s := f_%s' % (f, f) for f, _ in state),
+                                    ' '.join('a_' + p for p, _ in params))
+        enc = ' ++ '.join(['eExcept %s r.1' % _E[parse_type(sp['result'])]]
+                          + ['%s r.2.%s' % (_E[t], f) for f, t in state])
+        arms.append('  | %d :: t => (match (do %s; pure (let r := %s; %s) : P (List Int)).run t with\n'
+                    '    | some (out, []) => showInts out\n    | _ => "bad-args")'
+                    % (n, '; '.join(binds), call, enc))
+    body.append('def handle : List Int → String\n' + '\n'.join(arms) + '\n  | _ => "bad-function"\n')
+    body.append('''partial def loop (h : IO.FS.Stream) (out : IO.FS.Stream) : IO Unit := do
+  let line ← h.getLine
+  if line.isEmpty then return
+  match parseInts line with
+  | some l => out.putStrLn ("R " ++ handle l)
+  | none => out.putStrLn "R bad-line"
+  loop h out
+
+def main : IO Unit := do
+  loop (← IO.getStdin) (← IO.getStdout)
+''')
+    return '\n'.join(body)
+
+
+# -- abstract values <-> tokens / real Python objects
+
+def _enc(t, v, out):
+    if t == INT:
+        out.append(int(v))
+    elif t == BOOL:
+        out.append(1 if v else 0)
+    elif t == SEQ:
+        out.append(len(v))
+        out.extend(v)
+    elif t == ('Option', INT):
+        out.extend([0] if v is None else [1, int(v)])
+    elif t == ('Option', OPAQUE):
+        out.append(0 if v is None else 1)
+    elif t == OPAQUE:
+        pass
+    elif t == FILE:
+        _enc(SEQ, v['data'], out)
+        out.extend([v['pos'], int(v['closed']), int(v['real']), int(v['stale'])])
+    elif t == FILES:
+        out.append(len(v))
+        for x in v:
+            _enc(FILE, x, out)
+    else:
+        raise ValueError(t)
+
+
+def _mk_file(v):
+    import io
+    import tempfile
+    data = bytes(v['data'])
+    if v['real']:
+        f = tempfile.TemporaryFile()
+        if v['stale']:
+            k = len(data) // 2
+            f.write(data[:k])
+            f.flush()
+            f.write(data[k:])           # still in the userspace buffer; position = end of the data
+            assert v['pos'] == len(data)
+        else:
+            f.write(data)
+            f.seek(v['pos'])
+    else:
+        f = io.BytesIO(data)
+        f.seek(v['pos'])
+    if v['closed']:
+        f.close()
+    return f
+
+
+def _obs_file(f):
+    import io
+    real = not isinstance(f, io.BytesIO)
+    if f.closed:
+        return [0, 0, 1, int(real)]
+    pos = f.tell()
+    if real:
+        f.seek(0)
+        data = f.read()
+        f.seek(pos)
+    else:
+        data = f.getvalue()
+    return [len(data)] + list(data) + [pos, 0, int(real)]
+
+
+def _canon_state(t, v):
+    if t == FILE:
+        return _obs_file(v)
+    if t == FILES:
+        out = [len(v)]
+        for x in v:
+            out += _obs_file(x)
+        return out
+    if t == INT:
+        return [int(v)]
+    if t == SEQ:
+        return [len(v)] + list(v)
+    if t == OPAQUE:
+        return []
+    raise ValueError(t)
+
+
+def _canon_result(t, v):
+    if t in (UNIT, FD, OPAQUE):
+        return []
+    if t == INT:
+        if type(v) is not int:
+            raise ValueError('not an int: %r' % (v,))
+        return [v]
+    if t == BOOL:
+        if type(v) is not bool:
+            raise ValueError('not a bool: %r' % (v,))
+        return [int(v)]
+    if t == SEQ:
+        if type(v) is not bytes:
+            raise ValueError('not bytes: %r' % (v,))
+        return [len(v)] + list(v)
+    if t == ('Option', INT):
+        return [0] if v is None else [1, int(v)]
+    raise ValueError(t)
+
+
+def call_real(sp, case):
+    """run the real method on real objects built from the abstract state -> (('ok', value) | ('exc', class name),
+    canonical state after)"""
+    mod = importlib.import_module(sp['module'])
+    pycls = getattr(mod, sp['cls']['name'])
+    obj = pycls.__new__(pycls)
+    state = {}
+    for a, tt in sp['cls']['state'].items():
+        t = parse_type(tt)
+        v = case['self'][a]
+        if t == FILE:
+            v = _mk_file(v)
+        elif t == FILES:
+            v = tuple(_mk_file(x) for x in v)
+        elif t == SEQ:
+            v = bytes(v)
+        elif t == OPAQUE:
+            v = None
+        setattr(obj, a, v)
+        state[a] = t
+    args = []
+    for p, tt in sp['params'].items():
+        v = case['args'][p]
+        if parse_type(tt) == SEQ:
+            v = bytes(v)
+        args.append(v)
+    got = py2lean_find_attr(pycls, sp['py'])
+    try:
+        if isinstance(got, property):
+            res = ('ok', getattr(obj, sp['py']))
+        else:
+            res = ('ok', getattr(obj, sp['py'])(*args))
+    except Exception as e:  # noqa: BLE001
+        res = ('exc', type(e).__name__)
+    after = []
+    for a, t in state.items():
+        after += _canon_state(t, getattr(obj, a))
+    for a, t in state.items():      # release the temporary files
+        v = getattr(obj, a)
+        for f in (v if isinstance(v, tuple) else [v]):
+            if hasattr(f, 'close'):
+                try:
+                    f.close()
+                except Exception:  # noqa: BLE001
+                    pass
+    try:
+        obj._buffer = None          # SpooledIOBase.__del__ closes `self.buffer`
+        import io
+        obj._buffer = io.BytesIO()
+    except Exception:  # noqa: BLE001
+        pass
+    return res, after
+
+
+def py2lean_find_attr(pycls, name):
+    for c in pycls.__mro__:
+        if name in c.__dict__:
+            return c.__dict__[name]
+    return None
+
+
+def _rand_file(rng, wild=True):
+    n = rng.choice([0, 0, 1, 2, 3, 5, 8])
+    data = [rng.choice([10, 10, 97, 98, 0, 255]) for _ in range(n)]
+    real = rng.random() < 0.5
+    stale = real and rng.random() < 0.25
+    pos = len(data) if stale else rng.choice([0, 0, len(data), rng.randint(0, len(data) + 2)])
+    closed = wild and rng.random() < 0.08
+    return {'data': data, 'pos': pos, 'closed': closed, 'real': real, 'stale': stale and not closed}
+
+
+def _rand_bytes(rng):
+    return [rng.choice([10, 97, 98, 0]) for _ in range(rng.choice([0, 1, 1, 2, 3, 6]))]
+
+
+def cases_for(sp, rng, quick):
+    cls = sp['cls']['name']
+    n = 120 if quick else 700
+    for _ in range(n):
+        if cls == 'MultiFileReader':
+            files = [_rand_file(rng) for _ in range(rng.choice([0, 1, 2, 2, 3, 4]))]
+            st = {'_fileobjs': files, '_index': rng.choice([0, 0, 0, 1, 2, len(files), len(files) + 1, -1]),
+                  '_joiner': []}
+        else:
+            st = {'_buffer': _rand_file(rng), '_max_size': rng.randint(-1, 12), '_dir': None}
+        args = {}
+        for p, tt in sp['params'].items():
+            t = parse_type(tt)
+            if t == INT:
+                if p in ('mode', 'whence'):
+                    v = rng.choice([0, 0, 0, 1, 1, 2, 2, 3, -1])
+                elif p == 'offset':
+                    v = rng.choice([0, 0, 0, 1, -1])
+                else:
+                    v = rng.randint(-3, 12)
+            elif t == ('Option', INT):
+                v = rng.choice([None, None, 0, 1, 2, 3, 5, 9, -1, -2, rng.randint(0, 14)])
+            elif t == ('Option', OPAQUE):
+                v = None
+            elif t == SEQ:
+                v = _rand_bytes(rng)
+            else:
+                raise ValueError(t)
+            args[p] = v
+        yield {'self': st, 'args': args}
+
+
+def selftest(pids, quick=False, seed=0, verbose=True, repo=None):
+    """-> (number of mismatches, report dict) in the format of py2lean_selftest.run"""
+    import random
+    import shutil
+    import subprocess
+    import tempfile
+    import time
+    from bv import common
+    common.ensure_repo_on_path()
+    t0 = time.time()
+    specs = _st_specs(pids)
+    src = build_driver(specs, repo or common.REPO)
+    rng = random.Random('py2lean-c18-selftest-%d' % seed)
+    lines, meta = [], []
+    for n, sp in enumerate(specs):
+        for case in cases_for(sp, rng, quick):
+            toks = [n]
+            for a, tt in sp['cls']['state'].items():
+                _enc(parse_type(tt), case['self'][a], toks)
+            for p, tt in sp['params'].items():
+                _enc(parse_type(tt), case['args'][p], toks)
+            lines.append(' '.join(map(str, toks)))
+            meta.append((sp, case))
+    tmp = tempfile.mkdtemp(prefix='py2lean-c18-selftest-')
+    try:
+        drv = os.path.join(tmp, 'SrcSelfTestC18.lean')
+        with open(drv, 'w') as fh:
+            fh.write(src)
+        with common.BuildLock():
+            rc, out = common._run(['lake', 'build', 'BoltonsVerif.PyRtC18'])
+        if rc != 0:
+            raise common.InfraError('cannot build BoltonsVerif.PyRtC18: ' + out[-500:])
+        t1 = time.time()
+        p = subprocess.run(['lake', 'env', 'lean', '--run', drv], cwd=common.LEAN, input='\n'.join(lines) + '\n',
+                           stdout=subprocess.PIPE, stderr=subprocess.STDOUT, text=True, timeout=1800)
+        t_lean = time.time() - t1
+    finally:
+        shutil.rmtree(tmp, ignore_errors=True)
+    outs = [ln[2:] for ln in p.stdout.split('\n') if ln.startswith('R ')]
+    if p.returncode != 0 or len(outs) != len(lines):
+        raise common.InfraError('scratch driver failed (rc %s, %d lines for %d inputs): %s' % (
+            p.returncode, len(outs), len(lines), p.stdout[-1500:]))
+    exc_codes = {n: i for i, n in enumerate(EXC_NAMES)}
+    report, mismatches = {}, []
+    for (sp, case), got in zip(meta, outs):
+        r = report.setdefault(sp['lean_name'], {'cases': 0, 'compared': 0, 'python_raises': 0, 'unspecified': 0,
+                                                'mismatches': 0})
+        r['cases'] += 1
+        if got.startswith('bad'):
+            raise common.InfraError('driver rejected a line: %s for %r' % (got, case))
+        val = [int(x) for x in got.split()]
+        (kind, res), after = call_real(sp, case)
+        if val[:2] == [0, 7] and not (kind == 'exc' and res not in exc_codes):
+            # `Other` where Python does not raise an exception of an unmodelled class (OSError, NotImplementedError,
+            # AttributeError …): outside what the abstract file specifies
+            r['unspecified'] += 1
+            continue
+        r['compared'] += 1
+        try:
+            if kind == 'exc':
+                r['python_raises'] += 1
+                want = [0, exc_codes.get(res, 7)]
+            else:
+                want = [1] + _canon_result(parse_type(sp['result']), res)
+            want = want + after
+        except Exception as e:  # noqa: BLE001
+            want = 'unencodable %r (%s)' % (res, e)
+        if want != val:
+            r['mismatches'] += 1
+            mismatches.append((sp['lean_name'], case, 'Python %s %r, after %r but Lean stream %s' % (kind, res, want, val)))
+    report['_mismatches'] = [{'function': n, 'case': c, 'what': b} for n, c, b in mismatches[:5]]
+    report['_wall_s'] = round(time.time() - t0, 2)
+    report['_lean_s'] = round(t_lean, 2)
+    if verbose:
+        for name, r in report.items():
+            print(name, r)
+        for name, case, bad in mismatches[:20]:
+            print('MISMATCH %s %r: %s' % (name, case, bad))
+    return len(mismatches), report
+
+
+if __name__ == '__main__':
+    import sys
+    sys.path.insert(0, os.path.dirname(os.path.abspath(__file__)))
+    n, _ = selftest(['C18'], quick='--quick' in sys.argv, seed=0)
+    sys.exit(1 if n else 0)
